@@ -180,7 +180,8 @@ def _ratio_cached(kappa, D):
     return _RATIO_CACHE[key]
 
 
-def check_watson(watson, z, gamma, max_concentration=500.0, ratio_tol=1e-6):
+def check_watson(watson, z, gamma, max_concentration=500.0, ratio_tol=1e-6,
+                 stats=None):
     """z: (..., N, D) unit rows, gamma: (..., K, N)."""
     lead = gamma.shape[:-2]
     K = gamma.shape[-2]
@@ -211,6 +212,12 @@ def check_watson(watson, z, gamma, max_concentration=500.0, ratio_tol=1e-6):
             c = float(conc[idx + (k,)])
             if not (0 <= c <= max_concentration * (1 + 1e-12)):
                 return f'Watson concentration {c!r} outside [0, {max_concentration}]'
+            if stats is not None:
+                stats('reach:watson_concentration_' + (
+                    'at_max' if c >= max_concentration * (1 - 1e-12) else
+                    'zero' if c <= 1e-3 else 'below_1' if c < 1 else
+                    '1_to_10' if c < 10 else '10_to_100' if c < 100 else
+                    'above_100'))
             if c >= max_concentration * (1 - 1e-12):
                 ok = lam_max >= r_max - ratio_tol
             elif c <= 1e-3:
@@ -230,7 +237,8 @@ def check_watson(watson, z, gamma, max_concentration=500.0, ratio_tol=1e-6):
 # von Mises-Fisher
 # --------------------------------------------------------------------------
 
-def check_vmf(vmf, y, gamma, min_concentration=1e-10, max_concentration=500.0):
+def check_vmf(vmf, y, gamma, min_concentration=1e-10, max_concentration=500.0,
+              stats=None):
     """y: (N, D) unit rows (class axis comes from gamma (K, N)) or
     (..., N, D) with gamma (..., K, N)."""
     lead = gamma.shape[:-2]
@@ -261,6 +269,11 @@ def check_vmf(vmf, y, gamma, min_concentration=1e-10, max_concentration=500.0):
                 return f'vMF mean of class {k} at {idx} differs from the ' \
                        f'normalised weighted resultant by {d:.3e}'
             c = float(conc[idx + (k,)])
+            if stats is not None:
+                stats('reach:vmf_concentration_' + (
+                    'at_max' if c >= max_concentration else
+                    'at_min' if c <= min_concentration else
+                    'below_10' if c < 10 else 'above_10'))
             if kap is None:
                 if not (min_concentration <= c <= max_concentration):
                     return f'vMF concentration {c!r} outside its clipping range'
